@@ -53,7 +53,7 @@ def run(ctx):
         for f in c["findings"]:
             ctx.violation("generated:" + f["sig"], f["detail"], {"label": rec["label"], "finding": f,
                           "sources": {p["id"] + "/" + x["name"]: langfam.render(x["tokens"], c["id"]) for p in rec["pkgs"] for x in p["files"]}})
-    if pairs == 0 or dsum.get("evolve_pairs", 0) == 0:
+    if (pairs == 0 or dsum.get("evolve_pairs", 0) == 0) and not ctx.violations:
         raise Broken("vacuous: no schema version pair was driven")
     ctx.coverage = {
         "states": r.distinct + gstates, "transitions": r.generated, "traces_validated_against_impl": summary["cases"].get("evolve", 0) + pairs,
